@@ -219,6 +219,9 @@ func CreateLossItvls(pattern string) (LossItvls, error) {
 		}
 		li.Itvls = append(li.Itvls, LossItvl{durS: dur, state: state})
 	}
+	if li.CycleDurS() <= 0 { // No interval (or overflowing durations), so no cycle to place a time in
+		return LossItvls{}, fmt.Errorf("invalid loss pattern %q", pattern)
+	}
 	return li, nil
 }
 
